@@ -27,6 +27,7 @@ type TableDef struct {
 	Partition []string `json:"partitionBy"`
 	MaxFlush  int      `json:"maxFlushMs"` // 0 = timer flushes disabled
 	MinFlush  int      `json:"minFlushMs"`
+	Raw       []string `json:"raw"` // fields reported as plain values, not decoded
 	Abs       TableAbs `json:"abs"`
 }
 
@@ -142,9 +143,17 @@ func fieldID(name string) string {
 
 // Probe runs sql and decodes the rows into cells of the bag-of-ids observable.
 func (n *Node) Probe(sql string, includeMem bool, timeout time.Duration) ([]Row, []string, error) {
+	rows, _, names, err := n.ProbeRaw(sql, includeMem, timeout, nil)
+	return rows, names, err
+}
+
+// ProbeRaw is Probe with the fields named in raw reported as plain values
+// [key, period, field, value] instead of being decoded.
+func (n *Node) ProbeRaw(sql string, includeMem bool, timeout time.Duration, raw map[string]bool) ([]Row, [][]interface{}, []string, error) {
+	var vals [][]interface{}
 	src, err := n.DB.Query(sql, false, nil, includeMem)
 	if err != nil {
-		return nil, nil, err
+		return nil, nil, nil, err
 	}
 	ctx, cancel := context.WithTimeout(context.Background(), timeout)
 	defer cancel()
@@ -163,6 +172,12 @@ func (n *Node) Probe(sql string, includeMem bool, timeout time.Duration) ([]Row,
 		}
 		for i, v := range row.Values {
 			f := fieldID(names[i])
+			if raw[f] {
+				if v != 0 {
+					vals = append(vals, []interface{}{key, per, f, v})
+				}
+				continue
+			}
 			if f == "p" {
 				if v != 0 {
 					rows = append(rows, Row{key, per, f, 0, countOf(v)})
@@ -181,7 +196,7 @@ func (n *Node) Probe(sql string, includeMem bool, timeout time.Duration) ([]Row,
 		return true, nil
 	})
 	sort.Slice(rows, func(i, j int) bool { return fmt.Sprint(rows[i]) < fmt.Sprint(rows[j]) })
-	return rows, names, err
+	return rows, vals, names, err
 }
 
 func countOf(v float64) interface{} {
